@@ -166,6 +166,40 @@ func (w *World) verifyFunc(p pkgT, cs *ContractSet, ct *Contract) (res *UnitResu
 			x.closureAssigned[o] = true
 		}
 	}
+	// a literal passed directly to a call with a contract is only invoked during that call (assumption: contracted
+	// callees do not retain closures); any other use lets it escape, and then every call through a function value
+	// may run it.
+	{
+		var stack []ast.Node
+		ast.Inspect(body, func(n ast.Node) bool {
+			if n == nil {
+				stack = stack[:len(stack)-1]
+				return true
+			}
+			if l, ok := n.(*ast.FuncLit); ok && n != ast.Node(lit) {
+				esc := true
+				if len(stack) > 0 {
+					if call, ok := stack[len(stack)-1].(*ast.CallExpr); ok && call.Fun != ast.Expr(l) {
+						if fn := x.callee(call); fn != nil {
+							if ct, _, _ := w.contractFor(p, fn); ct != nil {
+								esc = false
+							}
+						}
+					}
+				}
+				if esc {
+					x.litEscapes = true
+				}
+				// literals nested inside this one belong to it: they can only run when it runs
+				return false
+			}
+			stack = append(stack, n)
+			return true
+		})
+		if !x.litEscapes && len(x.closureAssigned) > 0 {
+			u.c.note("function literals of " + res.Key + " are passed only to contracted callees: assumed to run only during those calls")
+		}
+	}
 	st := &State{vars: map[types.Object]Term{}, ghost: map[string]Term{}, pc: tTrue}
 	bindParam := func(v *types.Var) {
 		if v == nil || v.Name() == "" || v.Name() == "_" {
@@ -263,7 +297,7 @@ func (w *World) verifyFunc(p pkgT, cs *ContractSet, ct *Contract) (res *UnitResu
 	}
 	for k := range fl.brk {
 		if len(fl.brk[k]) > 0 {
-			panic(unsupported{"break outside loop: " + k})
+			panic(unsupported{"break / backward goto outside the supported subset: " + k})
 		}
 	}
 	final := x.merge(ends)
@@ -500,6 +534,9 @@ func (w *World) verifyLemma(p pkgT, cs *ContractSet, lm *Lemma) (res *UnitResult
 // Decided syntactically over the typed AST of the whole package (field-insensitive on the root identifier).
 func (w *World) verifyImmutable(p pkgT, d ImmutableDecl) *UnitResult {
 	res := &UnitResult{Key: pkgRel(p) + ".immutable:" + d.Name, Pkg: pkgRel(p), Props: d.Props, Kind: "frame"}
+	if i := strings.Index(d.Name, "."); i > 0 {
+		return w.verifyFieldWriters(p, d, res)
+	}
 	obj := p.Types.Scope().Lookup(d.Name)
 	if obj == nil {
 		res.Err = "package-level variable not found: " + d.Name
@@ -649,5 +686,78 @@ func (w *World) verifyFieldPartition(p pkgT, fp FieldPartition) *UnitResult {
 		}
 		res.Obls = append(res.Obls, &Obligation{Name: res.Key + "#frame:refreshed-by:" + rf, Kind: "frame", Func: res.Key, PC: tTrue, Goal: goal, Text: txt, syntactic: true})
 	}
+	return res
+}
+
+// verifyFieldWriters: only the listed functions assign Type.field (syntactic frame over the whole package,
+// function literals included).
+func (w *World) verifyFieldWriters(p pkgT, d ImmutableDecl, res *UnitResult) *UnitResult {
+	i := strings.Index(d.Name, ".")
+	tn, fname := d.Name[:i], d.Name[i+1:]
+	tobj := p.Types.Scope().Lookup(tn)
+	if tobj == nil {
+		res.Err = "type not found: " + tn
+		return res
+	}
+	allowed := map[string]bool{}
+	for _, f := range d.Only {
+		allowed[f] = true
+	}
+	isT := func(e ast.Expr) bool {
+		t := p.TypesInfo.TypeOf(e)
+		if t == nil {
+			return false
+		}
+		if pt, ok := t.Underlying().(*types.Pointer); ok {
+			t = pt.Elem()
+		}
+		return types.Identical(t, tobj.Type())
+	}
+	var offenders []string
+	for _, f := range p.Syntax {
+		for _, dcl := range f.Decls {
+			fd, ok := dcl.(*ast.FuncDecl)
+			if !ok || fd.Body == nil {
+				continue
+			}
+			key := fd.Name.Name
+			if fn, ok := p.TypesInfo.Defs[fd.Name].(*types.Func); ok {
+				key = funcKey(fn)
+			}
+			if allowed[key] || allowed[fd.Name.Name] {
+				continue
+			}
+			ast.Inspect(fd.Body, func(n ast.Node) bool {
+				check := func(e ast.Expr) {
+					if se, ok := ast.Unparen(e).(*ast.SelectorExpr); ok && se.Sel.Name == fname && isT(se.X) {
+						offenders = append(offenders, fmt.Sprintf("%s at %s", key, p.Fset.Position(e.Pos())))
+					}
+				}
+				switch s := n.(type) {
+				case *ast.AssignStmt:
+					for _, l := range s.Lhs {
+						check(l)
+					}
+				case *ast.IncDecStmt:
+					check(s.X)
+				case *ast.UnaryExpr:
+					if s.Op.String() == "&" {
+						check(s.X)
+					}
+				case *ast.CompositeLit:
+					// composite literals construct new values; they are not writes to an existing object
+				}
+				return true
+			})
+		}
+	}
+	goal := tTrue
+	txt := fmt.Sprintf("only %v assign %s", d.Only, d.Name)
+	if len(offenders) > 0 {
+		goal = tFalse
+		txt += "; offenders: " + strings.Join(offenders, ", ")
+	}
+	res.decls = []string{}
+	res.Obls = []*Obligation{{Name: res.Key + "#frame:fieldwriters", Kind: "frame", Func: res.Key, PC: tTrue, Goal: goal, Text: txt, syntactic: true}}
 	return res
 }
